@@ -222,6 +222,7 @@ func c29Check(c *mc.Check, w *c28wWorld, o *c28wOut) bool {
 func TestVerifC29(t *testing.T) {
 	c := mc.Begin(t, "C29", "model_checking")
 	defer c.End()
+	defer c29hsStart(c)() // schedules half on real nodes (c29hs_test.go): worker processes run while this test explores, collected at the end
 	e1s, e1p := c29E1(c, "C29")
 	defer func() { c.Set("e1_schedules", e1s); c.Set("e1_choice_points", e1p) }()
 	c.Assume("history half: one goroutine, operations are atomic calls of the real entry points; schedules half: 5 scenarios of 2-3 threads under the controlled scheduler to a preemption bound")
